@@ -381,7 +381,8 @@ namespace occa {
     occa::json allProps;
     hash_t kernelHash;
     const std::string realFilename = io::findInPaths(filename, env::OCCA_KERNEL_PATH);
-    setupKernelInfo(props, hashFile(realFilename),
+    const hash_t sourceHash = hashFile(realFilename);
+    setupKernelInfo(props, sourceHash,
                     allProps, kernelHash);
 
     // TODO: [#185] Fix kernel cache frees
@@ -395,15 +396,39 @@ namespace occa {
     const std::string hashDir = io::hashDir(realFilename, kernelHash);
     allProps["hash"] = kernelHash.getFullString();
 
-    kernel cachedKernel = modeDevice->buildKernel(realFilename,
-                                                  kernelName,
-                                                  kernelHash,
-                                                  allProps);
+    // The backend reads the file again when it copies its text into the cache entry:
+    // if the file was rewritten since it was hashed for the key, the entry keyed for the
+    // old text may hold the new one (or half of it). Drop the entry and build what the
+    // file holds now
+    auto fileChangedSinceHashed = [&]() -> bool {
+      return (!io::isCached(realFilename)
+              && (hashFile(realFilename) != sourceHash));
+    };
+
+    kernel cachedKernel;
+    try {
+      cachedKernel = kernel(modeDevice->buildKernel(realFilename,
+                                                    kernelName,
+                                                    kernelHash,
+                                                    allProps));
+    } catch (...) {
+      if (fileChangedSinceHashed()) {
+        sys::rmrf(hashDir);
+        return buildKernel(filename, kernelName, props);
+      }
+      throw;
+    }
 
     if (cachedKernel.isInitialized()) {
       cachedKernel.modeKernel->hash = kernelHash;
     } else {
       sys::rmrf(hashDir);
+    }
+
+    if (fileChangedSinceHashed()) {
+      cachedKernel.free();
+      sys::rmrf(hashDir);
+      return buildKernel(filename, kernelName, props);
     }
 
     return cachedKernel;
